@@ -791,6 +791,7 @@ func (e *Engine) anchorsOf(fn *ssa.Function) map[ssa.Instruction]string {
 				} else {
 					name = "dyn"
 				}
+				name = stripTypeArgs(name)
 				switch x.(type) {
 				case *ssa.Go:
 					key = "go " + name
